@@ -306,11 +306,12 @@ def opt_dec(s):
     return None if s == "none" else unhex(s[5:])
 
 
-KNOWN_STDIN_OUTPUT = {"argv": ["--stdin", "out.css"], "stdin": "a{b:c}"}
+# fixed in /repo c1728ad; replayed on every run as a regression case
+FIXED_STDIN_OUTPUT = {"argv": ["--stdin", "out.css"], "stdin": "a{b:c}"}
 # fixed in /repo cea0756; stays as a regression case (first case of io_failure_cases)
 FIXED_UNFLUSHED = {"argv": ["--style", "compressed", "io/small.scss"], "input": "a{b:c}", "stdin": None, "stdout": "/dev/full"}
 # minimised past failures / known-finding witnesses, replayed on every run (besides `fixed_inputs()`, which run first)
-CORPUS = [KNOWN_STDIN_OUTPUT, FIXED_UNFLUSHED]
+CORPUS = [FIXED_STDIN_OUTPUT, FIXED_UNFLUSHED]
 
 
 def run(tier, seed):
@@ -329,6 +330,7 @@ def run(tier, seed):
         "what StdLogger wrote is taken from the runner's captured fd 2",
         "clap's parsing is modelled for the documented flags only (hidden flags, --, --help/--version, clustered short flags are answered `unsupported`)",
         "process-level behaviour (signals, closed pipes, permissions — the checks run as root) is outside the model",
+        "with --stdin the single positional is the OUTPUT file (main.rs since c1728ad); a second positional is a usage error",
         "as found and not contradicted by the property's text: the output file is created/truncated before compiling, so it is left EMPTY on a compile error"]
     ck.do_prove(cores=("cli",))
     if not ck.do_build_runner():
@@ -382,8 +384,6 @@ def _run(ck, tier, root, static_broken):
         for k, fl in enumerate(sets):
             in_mode = "stdin" if (inp["stdin_ok"] and rng.random() < 0.4) else "file"
             out_mode = rng.choice(["stdout", "stdout", "stdout", "file-new", "file-existing", "unopenable"])
-            if in_mode == "stdin":
-                out_mode = "stdout"            # as found: no output file can be named together with --stdin
             lp_use = list(lps)
             if "order" in inp["tags"] and rng.random() < 0.5:
                 lp_use.reverse()
@@ -393,12 +393,13 @@ def _run(ck, tier, root, static_broken):
             out_path = None
             if in_mode == "file":
                 positionals.append(f"c{idx}/in.{inp['ext']}")
-                if out_mode in ("file-new", "file-existing"):
-                    out_path = f"c{idx}/out{k}.css"
-                elif out_mode == "unopenable":
-                    out_path = rng.choice([f"c{idx}/no-such-dir/out.css", f"c{idx}"])
-                if out_path:
-                    positionals.append(out_path)
+            # with --stdin the single positional is the OUTPUT file (fix c1728ad)
+            if out_mode in ("file-new", "file-existing"):
+                out_path = f"c{idx}/out{k}.css"
+            elif out_mode == "unopenable":
+                out_path = rng.choice([f"c{idx}/no-such-dir/out.css", f"c{idx}"])
+            if out_path:
+                positionals.append(out_path)
             flat = [a for g in groups for a in g]
             if in_mode == "stdin":
                 groups2 = [["--stdin"]] + groups
@@ -420,12 +421,17 @@ def _run(ck, tier, root, static_broken):
     base = "c0/in.scss"
     for argv in [["-q", "--quiet", base], ["--no-charset", "--no-charset", base], ["-s", "compressed", "--style=expanded", base],
                  ["-s", "nested", base], ["--style", base], ["--frobnicate", base], [], ["-q"], [base, "c0/o1.css", "c0/o2.css"],
-                 ["-I"], ["--no-unicode=1", base], ["--stdin", "--stdin"], ["--indented", base], ["--", base], ["-qs", "compressed", base]]:
+                 ["-I"], ["--no-unicode=1", base], ["--stdin", "--stdin"], ["--indented", base], ["--", base], ["-qs", "compressed", base],
+                 ["--stdin", "c0/a.css", "c0/b.css"], ["c0/a.css", "--stdin", "-q", "c0/b.css"]]:
         extra.append({"idx": 0, "inp": fixed[0], "flags": None, "lps": [], "in_mode": "n/a", "out_mode": "stdout", "out_path": None,
                       "argv": argv, "stdin": b"x{y:z}", "canonical": False})
-    # --stdin together with a positional: as found the positional is the INPUT
-    extra.append({"idx": 0, "inp": fixed[0], "flags": {k: False for k in FLAG_KEYS}, "lps": [], "in_mode": "file", "out_mode": "stdout",
-                  "out_path": None, "argv": ["--stdin", base], "stdin": b"ignored{x:y}", "canonical": False})
+    # regression cases of the fixed defect C20-stdin-output (c1728ad): --stdin with a positional = the OUTPUT file; --stdin alone
+    extra.append({"idx": 0, "inp": fixed[0], "flags": {k: False for k in FLAG_KEYS}, "lps": [], "in_mode": "stdin", "out_mode": "file-new",
+                  "out_path": "c0/stdin-out.css", "argv": ["--stdin", "c0/stdin-out.css"], "stdin": b"a{b:c}", "canonical": False})
+    extra.append({"idx": 0, "inp": fixed[0], "flags": {k: False for k in FLAG_KEYS}, "lps": [], "in_mode": "stdin", "out_mode": "file-existing",
+                  "out_path": "c0/stdin-out2.css", "argv": ["c0/stdin-out2.css", "--stdin", "-s", "compressed"], "stdin": b"a{b:$nope}", "canonical": False})
+    extra.append({"idx": 0, "inp": fixed[0], "flags": {k: False for k in FLAG_KEYS}, "lps": [], "in_mode": "stdin", "out_mode": "stdout",
+                  "out_path": None, "argv": ["--stdin"], "stdin": b"a{b:c}", "canonical": False})
     cases += extra
     log(f"[C20] {len(inputs)} inputs, {len(cases)} cases prepared in {time.time() - t0:.1f}s")
 
@@ -526,7 +532,7 @@ def _run(ck, tier, root, static_broken):
             continue
         ok_kind = {"stdout": "stdout", "file-new": "file", "file-existing": "file", "unopenable": "unopenable"}[c["out_mode"]]
         if c["lib_key"] == "stdin-not-utf8":
-            ok_kind, lkind, body, warn = "unopenable", "err", "", ""       # read_to_string fails before the library is called
+            lkind, body, warn = "ioerr", "", ""       # read_to_string fails before the library is called (the output file is already open)
             ck.hist("lib:stdin-not-utf8")
         else:
             r = lib_res[lib_key_idx[c["lib_key"]]]
@@ -596,20 +602,18 @@ def _run(ck, tier, root, static_broken):
     # ---- I/O errors while delivering the CSS -------------------------------------------------------
     io_failure_cases(ck, root)
 
-    # ---- the known finding: --stdin with an output file ---------------------------------------
+    # ---- regression: --stdin with an output file (was known finding C20-stdin-output) ---------------------------------------
     d = os.path.join(root, "kf")
     os.makedirs(d, exist_ok=True)
-    o = run_cli(KNOWN_STDIN_OUTPUT["argv"], d, KNOWN_STDIN_OUTPUT["stdin"].encode())
-    lib = runner_map([{"mode": "compile", "input": KNOWN_STDIN_OUTPUT["stdin"], "fs": "std", "logger": "std", "options": {}}], d)[0]
+    o = run_cli(FIXED_STDIN_OUTPUT["argv"], d, FIXED_STDIN_OUTPUT["stdin"].encode())
+    lib = runner_map([{"mode": "compile", "input": FIXED_STDIN_OUTPUT["stdin"], "fs": "std", "logger": "std", "options": {}}], d)[0]
     outp = os.path.join(d, "out.css")
     got_file = open(outp).read() if os.path.isfile(outp) else None
-    ck.count(("known", KNOWN_STDIN_OUTPUT["argv"]), True)
+    ck.count(("known", FIXED_STDIN_OUTPUT["argv"]), True)
     if not (o["code"] == 0 and got_file == lib.get("css") and o["stdout"] == b""):
-        ck.impl_violation(json.dumps(KNOWN_STDIN_OUTPUT, sort_keys=True),
-                          {"argv": KNOWN_STDIN_OUTPUT["argv"], "stdin": KNOWN_STDIN_OUTPUT["stdin"], "observed": _obs_json(o),
+        ck.impl_violation(json.dumps(FIXED_STDIN_OUTPUT, sort_keys=True),
+                          {"argv": FIXED_STDIN_OUTPUT["argv"], "stdin": FIXED_STDIN_OUTPUT["stdin"], "observed": _obs_json(o),
                            "output_file": got_file, "expected_by_property": "exit 0, out.css = the library's CSS for the text on stdin"})
-    else:
-        ck.notes.append("known finding C20-stdin-output no longer fails on this tree (entry is stale)")
 
     # ---- verdicts ------------------------------------------------------------------------------
     failing.sort(key=lambda f: (len(f["input"]), len(f["argv"])))
